@@ -156,6 +156,25 @@ fn check_text(s: &str) -> Result<(), Fail> {
     Ok(())
 }
 
+/// (ASCII upper-case text, non-ASCII character that upper- or lower-cases to it, ignoring case)
+fn fold_alikes() -> &'static Vec<(String, char)> {
+    static T: std::sync::OnceLock<Vec<(String, char)>> = std::sync::OnceLock::new();
+    T.get_or_init(|| {
+        let mut v = vec![];
+        for c in (0x80u32..0x30000).filter_map(char::from_u32) {
+            for t in [c.to_uppercase().collect::<String>(), c.to_lowercase().collect::<String>()] {
+                if !t.is_empty() && t.len() <= 3 && t.bytes().all(|b| b.is_ascii_alphabetic()) {
+                    let t = t.to_ascii_uppercase();
+                    if !v.contains(&(t.clone(), c)) {
+                        v.push((t, c));
+                    }
+                }
+            }
+        }
+        v
+    })
+}
+
 fn near_miss(s: &str) -> bool {
     let t = s.trim().to_lowercase();
     let names = ["off", "error", "warn", "info", "debug", "trace", "0", "1", "2", "3", "4", "5"];
@@ -537,6 +556,15 @@ impl Property for C19 {
                 cs.into_iter().collect()
             }),
             2 => lookalike.prop_map(|s| s.to_string()),
+            // one letter (or letter pair) replaced by a non-ASCII character whose Unicode upper- or
+            // lower-casing is that ASCII text (dotless i, long s, Kelvin sign, ligatures ..)
+            2 => (base.clone(), any::<u16>()).prop_map(|(b, i)| {
+                let up = b.to_ascii_uppercase();
+                let cands: Vec<(usize, usize, char)> = fold_alikes().iter().flat_map(|(a, c)| up.match_indices(a.as_str()).map(|(k, _)| (k, a.len(), *c)).collect::<Vec<_>>()).collect();
+                if cands.is_empty() { return format!("{b}\u{131}"); }
+                let (k, n, c) = cands[vp_engine::pick(i, cands.len())];
+                format!("{}{}{}", &b[..k], c, &b[k + n..])
+            }),
             2 => (base.clone(), base).prop_map(|(a, b)| format!("{a}{b}")),
             1 => "[0-9+]{1,4}",
             2 => "\\PC{0,6}",
@@ -571,7 +599,7 @@ impl Property for C19 {
         }
     }
     fn rule(&self) -> String {
-        "enumeration (complete): all ordered pairs of the 5 levels and 6 filters in all four type combinations x {==,!=,<,<=,>,>=,partial_cmp,cmp,min,max,clamp,sort}; all conversions (From/into_level/from_level/AsLog/AsTrace, Display->FromStr); level<=filter vs the LevelFilter layer; all 136 letter-case spellings and digits 0-9; read-back of every hint (None,OFF..TRACE) by a lone collector; all 252 (hint before, hint after, other collector's hint) triples of a hint change + rebuild_interest_cache() that overlaps another thread's Dispatch::new (real threads, the other collector's first max_level_hint call is held). generated: strings derived from accepted spellings by whitespace/affix/edit/look-alike mutations plus random strings (must be rejected; '+3'/'03'-style numerals tolerated), and histories of 1-6 collectors with hints (lone or overlapping). non-trivial: ordered pairs of different rank; mixed-case spellings; generated strings within edit distance 1 (after trim/lowercase) of an accepted spelling but not canonical; hint histories in which the published maximum changes; distinct by canonical case encoding".into()
+        "enumeration (complete): all ordered pairs of the 5 levels and 6 filters in all four type combinations x {==,!=,<,<=,>,>=,partial_cmp,cmp,min,max,clamp,sort}; all conversions (From/into_level/from_level/AsLog/AsTrace, Display->FromStr); level<=filter vs the LevelFilter layer; all 136 letter-case spellings and digits 0-9; read-back of every hint (None,OFF..TRACE) by a lone collector; all 252 (hint before, hint after, other collector's hint) triples of a hint change + rebuild_interest_cache() that overlaps another thread's Dispatch::new (real threads, the other collector's first max_level_hint call is held). generated: strings derived from accepted spellings by whitespace/affix/edit/look-alike mutations and by substituting characters that case-fold to ASCII letters plus random strings (must be rejected; '+3'/'03'-style numerals tolerated), and histories of 1-6 collectors with hints (lone or overlapping). non-trivial: ordered pairs of different rank; mixed-case spellings; generated strings within edit distance 1 (after trim/lowercase) of an accepted spelling but not canonical; hint histories in which the published maximum changes; distinct by canonical case encoding".into()
     }
     fn assumptions(&self) -> Vec<String> {
         vec![
